@@ -292,6 +292,9 @@ func main() {
 	sB := &spec{pre: pre, writers: [][]wop{w1short, w2all}, readers: [][]string{{always, never}}}
 	sC := &spec{pre: pre, writers: [][]wop{w1short, w2own}, readers: [][]string{{churn, always}}}
 	sD := &spec{pre: pre, writers: [][]wop{w1rm}, readers: [][]string{{"10.1.2.3", always}, {never, "10.4.0.1"}}}
+	// removals of ranges that were never added, after the switch to maps, as many as there are live ranges
+	absent := []wop{R("203.0.113.0/24"), R("203.0.114.0/24"), R("203.0.115.0/24"), R("203.0.116.0/24"), R("203.0.117.0/24")}
+	sF := &spec{pre: []string{"192.168.0.0/24", "10.1.0.0/16", "10.2.0.0/16", "10.3.0.0/16"}, writers: [][]wop{absent}, readers: [][]string{{always, churn, never}}}
 	sE := &spec{pre: []string{"10.2.0.0/16"}, writers: [][]wop{{A("0.0.0.0/0"), R("10.2.0.0/16")}}, readers: [][]string{{churn}}} // the "either answer" case of the statement
 	P := func(b ...int) sdrive.Plan { return sdrive.Plan{Bounds: b} }
 	PS := func(n int, b ...int) sdrive.Plan { return sdrive.Plan{Bounds: b, Shards: n} }
@@ -304,6 +307,8 @@ func main() {
 			Quick: PS(8, 0, 1, 2, 3), Thorough: PS(16, 0, 1, 2, -1), Body: body(sC), MinOutcomes: 2},
 		{Name: "D-removed-slot+two-readers", Props: []string{"C12"}, About: "a slot removed before the switch, two readers",
 			Quick: PS(8, 0, 1, 2, 3), Thorough: PS(16, 0, 1, 2, -1), Body: body(sD), MinOutcomes: 2},
+		{Name: "F-absent-removes-after-switch", Props: []string{"C12"}, About: "the filter is already in maps mode (4 ranges with list size 3); a writer removes five ranges nobody added while a reader looks up stable ranges",
+			Quick: P(0, 1, -1), Body: body(sF), MinOutcomes: 1},
 		{Name: "E-either-answer", Props: []string{"C12"}, About: "0.0.0.0/0 added then the specific range removed while a lookup is in flight: both answers are allowed by the statement",
 			Quick: P(0, 1, -1), Body: body(sE), MinOutcomes: 2},
 	}
